@@ -17,7 +17,7 @@ type Options struct {
 // Generate builds one valid program from the seed.
 func Generate(id int, seed int64, o Options) *Prog {
 	g := &Gen{rng: rand.New(rand.NewSource(seed)), structs: map[string][]member{}, nonASCII: o.NonASCII, comments: o.Comments,
-		constVal: map[string]int{}, localVar: map[string]bool{}}
+		constVal: map[string]int{}, constKind: map[string]string{}, localVar: map[string]bool{}}
 	if o.Stmts == 0 {
 		o.Stmts = 7
 	}
@@ -101,9 +101,11 @@ func (g *Gen) module(o Options) {
 	g.newDecl("const-init")
 	g.kw("const")
 	g.id("N")
+	nKind := "a" // AbstractInt unless annotated
 	if g.rng.Intn(2) == 0 {
 		g.jp(":")
 		g.typ(tI32, "const")
+		nKind = "i"
 	}
 	g.p("=")
 	if g.rng.Intn(3) == 0 {
@@ -115,7 +117,31 @@ func (g *Gen) module(o Options) {
 	}
 	g.semi("decl")
 	g.constVal["N"] = nval
+	g.constKind["N"] = nKind
 	g.declare(variable{name: "N", t: tI32, cst: true, nz: true})
+
+	// constants of known value and every integer flavour, for const_assert conditions that mix operand kinds:
+	// u-suffixed, `: u32` initialised with an unsuffixed literal, abstract, i-suffixed
+	for _, kc := range []struct {
+		name, kind, suffix string
+		typed              bool
+		t                  ty
+	}{{"WG", "u", "u", false, tU32}, {"WU", "u", "", true, tU32}, {"LA", "a", "", false, tI32}, {"HI", "i", "i", false, tI32}} {
+		v := 2 + g.rng.Intn(7)
+		g.newDecl("const-init")
+		g.kw("const")
+		g.id(kc.name)
+		if kc.typed {
+			g.jp(":")
+			g.typ(kc.t, "const")
+		}
+		g.p("=")
+		g.e("int", fmt.Sprintf("%d%s", v, kc.suffix))
+		g.semi("decl")
+		g.constVal[kc.name] = v
+		g.constKind[kc.name] = kc.kind
+		g.declare(variable{name: kc.name, t: kc.t, cst: true, nz: true})
+	}
 
 	nconst := 1 + g.rng.Intn(3)
 	for i := 0; i < nconst; i++ {
@@ -138,7 +164,7 @@ func (g *Gen) module(o Options) {
 	}
 
 	// ---- module-scope const_assert
-	for i := g.rng.Intn(3); i > 0; i-- {
+	for i := 1 + g.rng.Intn(3); i > 0; i-- {
 		g.newDecl("cassert")
 		g.constAssert(nval, "decl")
 	}
@@ -259,6 +285,9 @@ func (g *Gen) module(o Options) {
 		if void {
 			np = 1 + g.rng.Intn(2)
 		}
+		if f.mustUse && np == 0 {
+			np = 1 // (so that every program has a user call with arguments)
+		}
 		ptys := []ty{tI32, tF32, tU32, tBool, tVec(3, "f32"), tVec(2, "f32"), tS, tVec(3, "i32"), tI32, tF32}
 		for k := 0; k < np; k++ {
 			f.params = append(f.params, variable{name: g.fresh("p"), t: ptys[g.rng.Intn(len(ptys))]})
@@ -290,6 +319,65 @@ func (g *Gen) module(o Options) {
 	}
 }
 
+// prologue emits, at the start of the compute entry point, one site of every kind that random generation may miss, so
+// that no rule class is vacuous for any seed: a swizzle on a vec3, a struct member access, a consumed @must_use call
+// with arguments, a constant integer division and a mixed-kind const_assert with a literal operand.
+func (g *Gen) prologue() {
+	gid := variable{name: "gid", t: tVec(3, "u32")}
+	g.nl()
+	g.kw("let")
+	n1 := g.fresh("l")
+	g.id(n1)
+	g.p("=")
+	g.useVar(gid, "expr")
+	g.jp(".")
+	i := g.j("id", string("xyz"[g.rng.Intn(3)]))
+	g.role("swz", i, 3, 0, 0, "expr", nil)
+	g.semi("stmt")
+	g.declare(variable{name: n1, t: tU32})
+
+	g.nl()
+	g.kw("let")
+	n2 := g.fresh("l")
+	g.id(n2)
+	g.p("=")
+	g.useVar(variable{name: "sb"}, "expr")
+	g.jp(".")
+	i = g.j("id", "a")
+	g.role("mem", i, 0, 0, 0, "expr", nil)
+	g.semi("stmt")
+	g.declare(variable{name: n2, t: tI32})
+
+	for _, f := range g.funcs {
+		if f.mustUse && g.callable(f) {
+			g.nl()
+			u := g.id("_")
+			g.p("=")
+			g.role("mustuse", u, 2, 0, 0, "", nil)
+			g.call(f, 1)
+			g.semi("stmt")
+			break
+		}
+	}
+
+	g.nl()
+	g.kw("let")
+	n3 := g.fresh("l")
+	g.id(n3)
+	g.p("=")
+	g.e("int", fmt.Sprint(6+g.rng.Intn(4)))
+	op := g.p([]string{"/", "%"}[g.rng.Intn(2)])
+	g.e("int", fmt.Sprint(2+g.rng.Intn(3)))
+	g.role("divop", op, len(g.toks), len(g.toks), 1, "i32", nil)
+	g.semi("stmt")
+	g.declare(variable{name: n3, t: tI32})
+
+	g.nl()
+	g.forceOperand = true
+	g.constAssert(g.constVal["N"], "stmt")
+	g.forceOperand = false
+}
+
 // constAssert emits a const_assert with a condition that is true.  n is the value of the module constant N.
 func (g *Gen) constAssert(n int, kind string) {
 	ca := g.kw("const_assert")
@@ -300,9 +388,18 @@ func (g *Gen) constAssert(n int, kind string) {
 	}
 	first := len(g.toks) + 1
 	class := "int"
+	var operand [][]any
 	g.argctx = append(g.argctx, "cassert-cond")
 	useN := func() { g.useVar(variable{name: "N"}, "const") }
-	switch g.rng.Intn(9) {
+	tmpl := g.rng.Intn(9)
+	if g.rng.Intn(2) == 0 || g.forceOperand {
+		tmpl = 9
+	}
+	switch tmpl {
+	case 9:
+		// operands of different integer kinds (u32 / i32 / AbstractInt), see cassert.go
+		class = "mixed"
+		operand = g.mixedCond()
 	case 0:
 		useN()
 		g.p(">")
@@ -362,7 +459,7 @@ func (g *Gen) constAssert(n int, kind string) {
 	if paren {
 		g.close(o, ")", true)
 	}
-	g.role("cassert", ca, first, last, 0, class, nil)
+	g.role("cassert", ca, first, last, 0, class, operand)
 	g.semi(kind)
 }
 
@@ -450,6 +547,9 @@ func (g *Gen) function(f function, stage string, nstmts int) {
 	bo := g.open("{", false, "block")
 	g.indent++
 	g.push()
+	if stage == "compute" {
+		g.prologue()
+	}
 	g.stmts(3)
 	if f.ret != nil {
 		g.nl()
@@ -561,13 +661,28 @@ func (g *Gen) stmt(d int) {
 		name := g.fresh("c")
 		g.id(name)
 		g.p("=")
+		if g.rng.Intn(3) == 0 {
+			// a literal of known value and kind (usable in mixed-kind const_assert conditions)
+			kind := []string{"u", "a", "i"}[g.rng.Intn(3)]
+			v := 2 + g.rng.Intn(7)
+			g.e("int", fmt.Sprintf("%d%s", v, suffixOf(kind)))
+			g.semi("stmt")
+			g.constVal[name] = v
+			g.constKind[name] = kind
+			kt := tI32
+			if kind == "u" {
+				kt = tU32
+			}
+			g.declare(variable{name: name, t: kt, cst: true, nz: true})
+			return
+		}
 		g.nest = append(g.nest, "const-init")
 		g.expr(t, g.ed, true)
 		g.nest = g.nest[:len(g.nest)-1]
 		g.semi("stmt")
 		g.declare(variable{name: name, t: t, cst: true})
 	})
-	add(1, func() { g.constAssert(g.constVal["N"], "stmt") })
+	add(2, func() { g.constAssert(g.constVal["N"], "stmt") })
 
 	// assignments
 	muts := g.visible(func(v variable) bool { return v.mut || v.ptr })
